@@ -1,6 +1,7 @@
 """C02 — the operation listing is complete, duplicate-free, causal and stable (DESIGN.md 7, C02)."""
 import coregen
-from coregen import gen_case, nontrivial as _nt, c_case, shrink_candidates
+from coregen import gen_case, nontrivial as _nt, c_case
+import coregen
 
 ID = 'C02'
 GEN_MODULES = ['Ident', 'Classes', 'Flags']
@@ -26,25 +27,45 @@ def gen_cases(rng, tier):
     cases = [gen_case(rng, maxlen=rng.choice([4, 8, 12])) for _ in range(n)]
     for c in cases:
         c['obs'] = ['plain', 'plain_dur_first']
+    # chains at the documented graph depth limit (only the number of listed operations is observed)
+    cases.append({'k': 'deep', 'n': 4999})
+    if tier == 'thorough':
+        cases += [{'k': 'deep', 'n': 4998}, {'k': 'deep', 'n': 5003}]
     return cases
 
 
 def to_coq(c, o):
-    return c_case(c, o)
+    if c.get('k') == 'deep':
+        if 'error' in o:
+            return f"(KDeep {c['n']} (-1))"
+        return f"(KDeep {c['n']} {o['listed'] if o.get('again') else -2})"
+    return f"(KCore {c_case(c, o)})"
 
 
 def nontrivial(c, o):
+    if c.get('k') == 'deep':
+        return True
     return _nt(c)
 
 
 def kind(c):
+    if c.get('k') == 'deep':
+        return 'chain-at-depth-limit'
     return ('nested' if coregen.has_sub(c['prog']) else 'flat') + ('+rel' if coregen.has_rel(c['prog']) else '')
 
 
 def sample(c, o):
+    if c.get('k') == 'deep':
+        return {'chain_length': c['n'], 'listed': o.get('listed')}
     return {'prog': c['prog'], 'env': c['env'], 'reported_first_ops': (o.get('plain') or {}).get('ops', [])[:3]}
 
 
 LEVEL_TEXT = "Coq theorems over the Core model's layered listing: for a well-formed forest the listing is duplicate-free and contains exactly the nodes of depth < 4999 (the documented limit), is sorted by relation depth, lists every parent before its children; for every build program the listed leaves are a permutation of the leaves added (sub-circuits expanded in place; unconditional for the current generated class table), and every entry is listed after the entry its relation refers to, through nesting. spec_ok judges completeness, causality and stability on the implementation's listing."
 LEVEL_NOTE = 'Trusted: Coq kernel, translator (Gen/Classes.v: copy() faithfulness is an Example over the generated table), hand-written Core model tied by correspondence. Stability of listing twice is an observation (c_stable), trivial in the functional model. No axioms.'
 TECHNIQUE = 'Coq proof over an executable model + correspondence evaluated by vm_compute'
+
+
+def shrink_candidates(case):
+    if case.get('k') == 'deep':
+        return
+    yield from coregen.shrink_candidates(case)
